@@ -53,13 +53,14 @@ GUARD_CFG = "servlin_verif"
 # which parts of the source (as named in the problem texts of props/srcparams.py) each property's model depends on
 SRC_DEPS = {
     "C01": ["src/head.rs"], "C02": ["src/head.rs"],
-    "C03": ["src/content_type.rs", "src/request.rs"],
+    "C03": ["src/content_type.rs", "src/request.rs", "src/headers.rs"],
     "C04": ["src/util.rs", "src/http_conn.rs"], "C05": ["src/util.rs", "src/http_conn.rs"],
     "C06": ["src/util.rs", "src/content_type.rs"], "C07": ["src/util.rs"], "C08": ["src/util.rs"],
     "C09": ["src/util.rs", "src/http_conn.rs"], "C10": ["src/util.rs", "src/http_conn.rs"],
     "C11": ["src/util.rs", "src/response.rs event_stream", "src/event.rs"],
-    "C15": ["src/cookie.rs"], "C16": ["src/time.rs"], "C18": ["src/log/logger.rs log()"],
+    "C15": ["src/cookie.rs", "src/headers.rs"], "C16": ["src/time.rs"], "C18": ["src/log/logger.rs log()"],
     "C17": ["src/log/tag_value.rs", "src/log/logger.rs write_jsonl"], "C19": ["src/log/log_file_writer.rs"],
+    "C14": ["src/headers.rs"],
 }
 
 ALLOWED_AXIOMS = set()  # names of standard-library axioms a property theorem may depend on (none needed so far)
